@@ -1,6 +1,7 @@
 package engine
 
 import (
+	"os"
 	"fmt"
 	"go/ast"
 	"go/types"
@@ -44,6 +45,7 @@ type Exec struct {
 	pureMemo  map[string]Val
 	notedFacts map[string]bool
 	pending   []string
+	qpending  []string // type facts of loads that mention quantified variables (closed by evalQuant)
 	qsyms     []string // symbols of quantifier variables currently in scope
 }
 
@@ -157,20 +159,45 @@ func (f *frame) flush() {
 	}
 }
 
+func (x *Exec) addPending(a string) {
+	if x.notedFacts == nil {
+		x.notedFacts = map[string]bool{}
+	}
+	if x.notedFacts[a] {
+		return
+	}
+	x.notedFacts[a] = true
+	x.pending = append(x.pending, a)
+}
+
 func (x *Exec) takePending() string {
 	p := x.pending
 	x.pending = nil
 	return And(p...)
 }
 
+// NoQuantTypeFacts switches the quantified type facts off (debugging).
+var NoQuantTypeFacts = os.Getenv("NRIVERIF_NOQTF") == "1"
+
 // noteLoaded records the type invariants of a value loaded from state st by a spec expression.
-func (x *Exec) noteLoaded(st *State, v Val) {
+func (x *Exec) noteLoaded(st *State, v Val) { x.noteLoadedFrom(st, v, "") }
+
+// noteLoadedFrom: owner is the reference the value was loaded through ("" if unknown).  A
+// load that depends on quantified variables yields a fact that is closed by the enclosing
+// quantifier (see evalQuant); such facts are guarded by the owner being allocated, because
+// cells of objects not allocated yet hold the values a later allocation will give them.
+func (x *Exec) noteLoadedFrom(st *State, v Val, owner string) {
 	a := x.heap.valAssume(st, v)
 	if a == "true" {
 		return
 	}
 	for _, q := range x.qsyms {
-		if strings.Contains(a, q) {
+		if strings.Contains(a, q) || strings.Contains(owner, q) {
+			if owner == "" || NoQuantTypeFacts {
+				return
+			}
+			g := And(app("<", "0", owner), app("<", owner, x.heap.alloc(st)))
+			x.qpending = append(x.qpending, Implies(g, a))
 			return
 		}
 	}
